@@ -302,8 +302,15 @@ class Switch(Generic[R], GenerativeFunction[R]):
             # relative to those discarded traces, not to the previous trace.
             weight = score - trace.get_score()
 
-        # TODO: this is totally wrong, fix in future PR.
-        bwd_request: Update = rets[0][3]
+        if Diff.tree_tangent(idx_diff) == NoChange:
+            # The executed branch's backward constraint (the others are masked off).
+            bwd_request = Update(
+                ChoiceMap.switch(new_idx, [bwd.constraint for _, _, _, bwd in rets])
+            )
+        else:
+            # The branches were regenerated from scratch: going back means reinstating all of the
+            # previous trace's choices.
+            bwd_request = Update(trace.get_choices())
 
         return (
             SwitchTrace(self, primals, subtraces, retval, score),
